@@ -313,7 +313,37 @@ NEED = {  # coverage obligations: antecedent counters that must be hit (summed o
 }
 
 
+def run_replay(ctx):
+    """bin/check X00 --replay <file>: run the test named in a replay file again (three times: real schedules differ) and judge its traces."""
+    rp = json.load(open(ctx.replay)).get("replay") or {}
+    test = rp.get("test")
+    if not test:
+        raise vlib.Inconclusive("replay file names no test")
+    short, pkg = test.split(".")[-1], ("./partialmessages/" if test.startswith("partialmessages") else ".")
+    tests, nev = {}, 0
+    for k in range(3):
+        outdir = os.path.join(ctx.work, "traces%d" % k)
+        r = run_suite(ctx, pkg, [short], outdir, 600, "replay%d" % k)
+        for t, raw in load_raw(outdir).items():
+            if raw["ev"]:
+                ex = EXCLUDED.get(t.split(".")[-1])
+                tests["%s#%d" % (t, k)] = normalise("%s#%d" % (t, k), raw, ex[0] if ex else [])
+                nev += len(raw["ev"])
+    if not tests:
+        raise vlib.Inconclusive("the test recorded no events")
+    viols, covs, st, nlines = validate(ctx, tests, workers=3)
+    for v in viols:
+        v["test"] = v["test"]
+    report(ctx, viols, tests, None)
+    return vlib.finish(ctx, LEVEL, {"states": max(st, 1), "transitions": max(nlines, 1), "traces_validated_against_impl": len(tests),
+                                    "evaluations": nlines, "distinct_nontrivial": len(tests), "exhaustive": False,
+                                    "rule": "replay: the test of a replay file run three times", "samples": [{"test": test, "events": nev}]},
+                       ["replay of one repository test; real schedules differ between runs"])
+
+
 def run(ctx):
+    if ctx.replay:
+        return run_replay(ctx)
     # the model checking runs while the repository's tests run (they mostly wait for real-time timers)
     mc_pool = cf.ThreadPoolExecutor(max_workers=1)
     mc_future = mc_pool.submit(model_check, ctx)
